@@ -840,6 +840,7 @@ type c19FieldCase struct {
 	Config  interface{}       `json:"config"`
 	Files   map[string]string `json:"files,omitempty"`
 	Expect  []c19Expect       `json:"expect"`
+	Updates []c19Update       `json:"updates,omitempty"` // runtime updates applied in the FIRST start before its dumps (part storage-forms)
 }
 
 func c19SetAt(cur interface{}, path []c19TStep, a c19Assign) interface{} {
@@ -1555,6 +1556,8 @@ type c19Outcome struct {
 	TimedOut   bool
 	Keys       []string // violation keys
 	ReloadFail bool
+	Updates    []string               // MOSN's answers to the runtime updates of the first start
+	Dump1      map[string]interface{} // the first dump document (config + directories), for outcome classes
 }
 
 // c19RunFieldCase runs one generated case in dir (created fresh).
@@ -1595,9 +1598,21 @@ func c19RunFieldCase(p *vreport.Part, c c19FieldCase, dir string, blame func(c c
 	if starts < 2 {
 		starts = 2
 	}
-	s1 := c19StartMosn(filepath.Join(dir, "conf"), cfgPath, dir, "1", extraEnv...)
+	env1 := extraEnv
+	if len(c.Updates) > 0 { // the history of runtime updates belongs to the first start only
+		ub, _ := json.Marshal(c19Subst(c19Generic(c.Updates), dir))
+		up := filepath.Join(dir, "updates.json")
+		os.WriteFile(up, ub, 0644)
+		env1 = append(append([]string{}, extraEnv...), c19EnvUpdates+"="+up)
+	}
+	s1 := c19StartMosn(filepath.Join(dir, "conf"), cfgPath, dir, "1", env1...)
+	o.Updates = s1.Res.Updates
 	if s1.TimedOut {
 		o.TimedOut = true
+		return o
+	}
+	if strings.HasPrefix(s1.Res.Err, "harness:") {
+		vreport.HarnessError("C19", "storage-forms", s1.Res.Err)
 		return o
 	}
 	if !s1.Finished {
@@ -1609,6 +1624,7 @@ func c19RunFieldCase(p *vreport.Part, c c19FieldCase, dir string, blame func(c c
 		viol("generated: persisted file is not parseable in its own format", err.Error())
 		return o
 	}
+	o.Dump1 = d1
 	var i1 interface{}
 	var d []c19Diff
 	if !c.OneDump {
@@ -1655,6 +1671,7 @@ func c19RunFieldCase(p *vreport.Part, c c19FieldCase, dir string, blame func(c c
 		return fmt.Sprintf("%dth", k)
 	}
 	seen := map[string]bool{}
+	base := "first"
 	for k := 2; k <= starts; k++ {
 		sk := c19StartMosn(filepath.Join(dir, "conf"), cfgPath, dir, strconv.Itoa(k), extraEnv...)
 		if sk.TimedOut {
@@ -1671,6 +1688,11 @@ func c19RunFieldCase(p *vreport.Part, c c19FieldCase, dir string, blame func(c c
 				fs := append([]string{}, c.Fields...)
 				sort.Strings(fs)
 				key = fmt.Sprintf("dump does not load again (stage %s) after setting %s", sk.Res.Stage, strings.Join(fs, " + "))
+				if why := c19TwoForms(sk.File, isYAML); why != "" {
+					// name what is wrong with the persisted document when it is visibly
+					// the documented "only one of static config or dynamic config"
+					key = fmt.Sprintf("dump does not load again (stage %s): %s; after %s", sk.Res.Stage, why, strings.Join(fs, " + "))
+				}
 			}
 			viol(key, fmt.Sprintf("start %d completed; the restart from the persisted file did not: stage=%s exit=%d %s %s",
 				k-1, sk.Res.Stage, sk.Exit, sk.Res.Err, strings.ReplaceAll(c19StripTime(c19FatalLine(sk.Tail)), dir, c19TMP)))
@@ -1684,10 +1706,33 @@ func c19RunFieldCase(p *vreport.Part, c c19FieldCase, dir string, blame func(c c
 		if starts > 2 { // what the input set must still be there after every dump
 			checkExpect(dk)
 		}
+		if len(c.Updates) > 0 && k == 2 {
+			// the first dump follows runtime updates: the updated objects are held as the
+			// update gave them, the load-time defaults (cluster buffer limit, host weight,
+			// …) appear only once the document has been loaded. The statement speaks about
+			// a LOADED configuration and its dump: the persisted document d1 is the
+			// configuration, the second dump is its dump - nothing d1 holds may be dropped
+			// or changed by it (it may add defaults) - and from here on the dumps must be
+			// equal (third == second).
+			if where, w, g := c19SubsetDiff("", d1, dk); where != "" {
+				x := c19Diff{Path: strings.TrimPrefix(where, "."), Kind: "changed", A: c19Short(w), B: c19Short(g)}
+				if g == nil {
+					x.Kind = "missing"
+				}
+				viol(c19DiffKey("dump after runtime updates, reloaded: second dump drops or changes what it holds", x),
+					strings.ReplaceAll(fmt.Sprintf("%s: first dump (after the updates) has %s, the dump after the reload has %s", x.Path, x.A, x.B), dir, c19TMP))
+			}
+			d1, base = dk, "second"
+			if ik, err := c19Parse([]byte(sk.Res.Inherit), false); err == nil && !c.OneDump {
+				c19Canon(ik)
+				i1 = ik
+			}
+			continue
+		}
 		d = nil
 		c19DiffValues("", d1, dk, &d)
 		for _, x := range d {
-			kk := c19DiffKey(ord(k)+" dump differs from first", x)
+			kk := c19DiffKey(ord(k)+" dump differs from "+base, x)
 			if !seen[kk] {
 				seen[kk] = true
 				viol(kk, strings.ReplaceAll(c19DiffText(d), dir, c19TMP))
@@ -1698,7 +1743,7 @@ func c19RunFieldCase(p *vreport.Part, c c19FieldCase, dir string, blame func(c c
 				c19Canon(ik)
 				c19DiffValues("config", i1, ik, &d)
 				for _, x := range d {
-					kk := c19DiffKey(ord(k)+" hot-upgrade bytes differ from first", x)
+					kk := c19DiffKey(ord(k)+" hot-upgrade bytes differ from "+base, x)
 					if !seen[kk] {
 						seen[kk] = true
 						viol(kk, strings.ReplaceAll(c19DiffText(d), dir, c19TMP))
@@ -1708,6 +1753,34 @@ func c19RunFieldCase(p *vreport.Part, c c19FieldCase, dir string, blame func(c c
 		}
 	}
 	return o
+}
+
+// c19TwoForms looks at a persisted document that MOSN refused to load: an
+// object written in both of its storage forms at once (inline list and
+// directory) is what RouterConfiguration / ClusterManagerConfig.UnmarshalJSON
+// reject with ErrDuplicateStaticAndDynamic. Diagnosis for the finding key only.
+func c19TwoForms(fileBytes []byte, isYAML bool) string {
+	cfg, err := c19Parse(fileBytes, isYAML)
+	if err != nil {
+		return ""
+	}
+	nonEmpty := func(v interface{}) bool { l, ok := v.([]interface{}); return ok && len(l) > 0 }
+	isPath := func(v interface{}) bool { s, ok := v.(string); return ok && s != "" }
+	if rs, ok := c19Get(cfg, []interface{}{"servers", 0, "routers"}); ok {
+		if l, ok := rs.([]interface{}); ok {
+			for _, r := range l {
+				if m, ok := r.(map[string]interface{}); ok && isPath(m["router_configs"]) && nonEmpty(m["virtual_hosts"]) {
+					return "a router is persisted with both router_configs and virtual_hosts"
+				}
+			}
+		}
+	}
+	if cm, ok := c19Get(cfg, []interface{}{"cluster_manager"}); ok {
+		if m, ok := cm.(map[string]interface{}); ok && isPath(m["clusters_configs"]) && nonEmpty(m["clusters"]) {
+			return "the cluster manager is persisted with both clusters_configs and clusters"
+		}
+	}
+	return ""
 }
 
 func c19DiffKey(what string, d c19Diff) string {
